@@ -97,10 +97,10 @@ PLANS["C16"] = {
 }
 
 PLANS["C19"] = {
-    "quick": [J("c19-stops", "quick", 120, test="TestE3"), J("fsconc1", "p=3,s=3", 40), J("fsconc2", "p=3,s=3", 40), J("c19-kernel", "quick", 120, test="TestE3", shards=4)]
+    "quick": [J("c19-stops", "quick", 120, test="TestE3"), J("fsconc1", "p=3,s=3", 40), J("fsconc2", "p=3,s=3", 40), J("fsconc3", "p=3,s=3", 40), J("c19-kernel", "quick", 120, test="TestE3", shards=4)]
     + [J("fsbit%02d" % b, "p=2,s=2", 30, shards=4) for b in range(17)]
     + [J("race-fs", "free-running, -race", 120, test="TestE3", shards=1, race=True)],
-    "thorough": [J("c19-stops", "thorough", 900, test="TestE3"), J("fsconc1", "p=6,s=6", 600), J("fsconc2", "p=6,s=6", 600), J("c19-kernel", "thorough", 600, test="TestE3", shards=4)]
+    "thorough": [J("c19-stops", "thorough", 900, test="TestE3"), J("fsconc1", "p=6,s=6", 600), J("fsconc2", "p=6,s=6", 600), J("fsconc3", "p=6,s=6", 600), J("c19-kernel", "thorough", 600, test="TestE3", shards=4)]
     + [J("fsbit%02d" % b, "p=4,s=4", 120) for b in range(17)]
     + [J("race-fs", "free-running, -race", 120, test="TestE3", shards=1, race=True)],
 }
